@@ -713,6 +713,13 @@ mod shimtest {
                 let parts: Vec<&str> = s.split(sep).collect();
                 let sc: Vec<char> = sep.chars().collect();
                 if parts.is_empty() || parts.join(sep) != *s || parts.iter().any(|p| has_sub(&p.chars().collect::<Vec<_>>(), &sc)) { h.hit("shims", "shim_split", "str::split", s, sep); }
+                // axiom_split_step: the first piece ends at the first separator, the rest is the split of what follows; no separator: one piece
+                if sc.len() == 1 {
+                    match s.find(sep) {
+                        None => if parts != vec![s.as_str()] { h.hit("shims", "shim_split_step", "str::split", s, sep); },
+                        Some(k) => { let mut want = vec![&s[..k]]; want.extend(s[k + sep.len()..].split(sep)); if parts != want { h.hit("shims", "shim_split_step", "str::split", s, sep); } }
+                    }
+                }
                 match s.split_once(sep) {
                     None => if has_sub(&cs, &sc) { h.hit("shims", "shim_split_once", "str::split_once", s, sep); },
                     Some((a, b)) => if format!("{}{}{}", a, sep, b) != *s || has_sub(&a.chars().collect::<Vec<_>>(), &sc) || (parts.len() > 1 && (a != parts[0] || b != parts[1..].join(sep))) { h.hit("shims", "shim_split_once", "str::split_once", s, sep); },
@@ -860,6 +867,25 @@ mod parsers {
             let tt = t.clone();
             if panic::catch_unwind(move || { let _ = crate::json::array::RawUnprocessedJSONArray::split_into_vector_of_strings(tt); }).is_err() { h.hit("parsers", "c20_panic_json_array", "RawUnprocessedJSONArray::split_into_vector_of_strings", &t, "panic"); }
         }
+        // the typed list readers built on the splitter
+        for t in strs("[1, 2, 3]").into_iter().chain(strs("[true, false]")).chain(strs("[\"a\", \"b\"]")).chain(strs("[1.5, -2e3]")).chain(strs("[null, null]"))
+            .chain(["[\"]", "[ ]", "[,]", "[\"\"]", "[\"a\",]", "[\"", "[\"\\\"]", "[ \" ]", "[\"\u{e9}\"]", "[\u{e9}]", "[1,,2]", "[ , ]"].iter().map(|x| x.to_string())) {
+            use crate::json::array::{boolean::JSONArrayOfBooleans, float::JSONArrayOfFloats, integer::JSONArrayOfIntegers, null::JSONArrayOfNulls, string::JSONArrayOfStrings};
+            let readers: Vec<(&str, Box<dyn Fn(String) + std::panic::RefUnwindSafe>)> = vec![
+                ("parse_as_list_i128", Box::new(|x| { let _ = JSONArrayOfIntegers::parse_as_list_i128(x); })), ("parse_as_list_i64", Box::new(|x| { let _ = JSONArrayOfIntegers::parse_as_list_i64(x); })),
+                ("parse_as_list_i32", Box::new(|x| { let _ = JSONArrayOfIntegers::parse_as_list_i32(x); })), ("parse_as_list_i16", Box::new(|x| { let _ = JSONArrayOfIntegers::parse_as_list_i16(x); })),
+                ("parse_as_list_i8", Box::new(|x| { let _ = JSONArrayOfIntegers::parse_as_list_i8(x); })), ("parse_as_list_u128", Box::new(|x| { let _ = JSONArrayOfIntegers::parse_as_list_u128(x); })),
+                ("parse_as_list_u64", Box::new(|x| { let _ = JSONArrayOfIntegers::parse_as_list_u64(x); })), ("parse_as_list_u32", Box::new(|x| { let _ = JSONArrayOfIntegers::parse_as_list_u32(x); })),
+                ("parse_as_list_u16", Box::new(|x| { let _ = JSONArrayOfIntegers::parse_as_list_u16(x); })), ("parse_as_list_u8", Box::new(|x| { let _ = JSONArrayOfIntegers::parse_as_list_u8(x); })),
+                ("parse_as_list_bool", Box::new(|x| { let _ = JSONArrayOfBooleans::parse_as_list_bool(x); })), ("parse_as_list_f64", Box::new(|x| { let _ = JSONArrayOfFloats::parse_as_list_f64(x); })),
+                ("parse_as_list_f32", Box::new(|x| { let _ = JSONArrayOfFloats::parse_as_list_f32(x); })), ("parse_as_list_null", Box::new(|x| { let _ = JSONArrayOfNulls::parse_as_list_null(x); })),
+                ("parse_as_list_string", Box::new(|x| { let _ = JSONArrayOfStrings::parse_as_list_string(x); })),
+            ];
+            for (name, f) in readers.iter() {
+                let tt = t.clone();
+                if panic::catch_unwind(|| f(tt)).is_err() { h.hit("parsers", &format!("c20_panic_json_{}", name), name, &t, "panic"); }
+            }
+        }
         // JSON objects: run on a helper thread with a time limit (non-termination counts)
         let mut jsons = strs("{\"name\": \"rws\", \"port\": 7878, \"ok\": true, \"f\": 1.5, \"n\": null, \"o\": {\"a\": 1}, \"l\": [1, 2]}");
         jsons.truncate(600);
@@ -921,6 +947,18 @@ mod mpform {
     use crate::body::multipart_form_data::{FormMultipartData, Part};
     use crate::header::Header;
 
+    // lines that look like the boundary but differ from it in their hyphens (they do not contain it)
+    pub fn near_boundary_bodies(boundary: &str) -> Vec<Vec<u8>> {
+        let core = boundary.trim_start_matches('-');
+        let mut v = vec![];
+        if core.len() < boundary.len() && !core.is_empty() {
+            v.push(core.as_bytes().to_vec());
+            v.push(format!("-{}", core).into_bytes());
+            v.push(format!("first\r\n{}\r\nlast line", core).into_bytes());
+            v.push(format!("{}--", core).into_bytes());
+        }
+        v
+    }
     pub fn bodies() -> Vec<Vec<u8>> {
         vec![b"".to_vec(), b"x".to_vec(), b"value".to_vec(), b"\n".to_vec(), b"\r\n".to_vec(), b"a\n".to_vec(), b"a\r\n".to_vec(), b"\r".to_vec(), b"line1\r\nline2".to_vec(),
              b"--".to_vec(), b"-- not a boundary --".to_vec(), vec![0, 255, 254, 13, 10, 0], (0..=255u8).collect(), b"ends with cr\r".to_vec()]
@@ -940,7 +978,13 @@ mod mpform {
             parts.push((hs, bs[rng.below(bs.len() as u64) as usize].clone()));
         }
         let bd = boundaries();
-        (parts, bd[rng.below(bd.len() as u64) as usize])
+        let b = bd[rng.below(bd.len() as u64) as usize];
+        let near = near_boundary_bodies(b);
+        if !near.is_empty() && rng.below(3) == 0 {
+            let k = rng.below(parts.len() as u64) as usize;
+            parts[k].1 = near[rng.below(near.len() as u64) as usize].clone();
+        }
+        (parts, b)
     }
     pub fn check(i: u64) -> Option<(String, String)> {
         let (parts, boundary) = case(i);
@@ -971,6 +1015,10 @@ mod mpform {
                              ("no closing boundary, body without line break", b"xyz\r\nContent-Disposition: form-data; name=\"a\"\r\n\r\nv".to_vec())] {
             let r = panic::catch_unwind(move || FormMultipartData::parse(&body, "xyz".to_string()));
             match r { Err(_) => h.hit("mpform", "c16_panic", "FormMultipartData::parse", name, "panic"), Ok(Ok(ps)) => h.hit("mpform", "c16_not_rejected", "FormMultipartData::parse", name, &format!("accepted with {} part(s)", ps.len())), Ok(Err(_)) => {} }
+        }
+        for (ct, want) in [("multipart/form-data; boundary=----WebKitFormBoundary7MA4YWxkTrZu0gW", "----WebKitFormBoundary7MA4YWxkTrZu0gW"), ("multipart/form-data; boundary=AbC-dEf", "AbC-dEf"), ("multipart/form-data;boundary=x", "x")] {
+            let r = panic::catch_unwind(move || FormMultipartData::extract_boundary(ct));
+            match r { Ok(Ok(b)) if b == want => {}, other => h.hit("mpform", "c16_extract_boundary", "FormMultipartData::extract_boundary", ct, &format!("{:?}, expected {:?}", other.ok(), want)) }
         }
         let g2 = good.clone();
         if let Ok(Ok(ps)) = panic::catch_unwind(move || FormMultipartData::parse(&g2, "xyz".to_string())) { if ps.len() != 1 || ps[0].body != b"v" { h.hit("mpform", "c16_roundtrip", "FormMultipartData::parse", "control", "control body misread"); } }
